@@ -34,6 +34,7 @@ type zDriver struct {
 	table     []*zUser // rows visible to ParseRows
 	lastQuery *zStmt
 	failExec  bool
+	byRows    map[*sql.Rows]*zStmt // statement that produced a result set (concurrent queries)
 }
 
 var zDrv *zDriver
@@ -48,7 +49,12 @@ func zReset() *zDriver {
 func VerifStubDBQueryContext(db *sql.DB, ctx context.Context, query string, args ...interface{}) (*sql.Rows, error) {
 	zDrv.stmts = append(zDrv.stmts, zStmt{kind: "query", clause: query, args: args})
 	zDrv.lastQuery = &zDrv.stmts[len(zDrv.stmts)-1]
-	return &sql.Rows{}, nil
+	rows := &sql.Rows{}
+	if zDrv.byRows == nil {
+		zDrv.byRows = map[*sql.Rows]*zStmt{}
+	}
+	zDrv.byRows[rows] = &zStmt{kind: "query", clause: query, args: args}
+	return rows, nil
 }
 
 func VerifStubDBExecContext(db *sql.DB, ctx context.Context, query string, args ...interface{}) (sql.Result, error) {
@@ -107,6 +113,10 @@ func VerifStubRowScan(r *sql.Row, dest ...interface{}) error {
 // table and returns the matching rows (as ParseRows would from the driver).
 func VerifStubParseRows(s *Schema, query *SelectQuery, res *sql.Rows) ([]interface{}, error) {
 	st := zDrv.lastQuery
+	if own, ok := zDrv.byRows[res]; ok {
+		st = own
+		delete(zDrv.byRows, res)
+	}
 	where := zWhereOf(st.clause)
 	e, ok := zParseWhere(where)
 	nondet.Assert(ok, "sql-understood")
